@@ -29,7 +29,7 @@ def footer_bytes(spec: dict) -> bytes:
     data_offset = 0xFFFFFFFFFFFFFFFF if spec["kind"] == "fixed" else spec["dyn_offset"]
     disk_type = 2 if spec["kind"] == "fixed" else 3
     fields = [
-        b"conectix", 0x00000002, 0x00010000, data_offset, spec.get("timestamp", 0x2A2A2A2A), b"vpc ", 0x00050003, b"Wi2k",
+        b"conectix", spec.get("features", 0x00000002), 0x00010000, data_offset, spec.get("timestamp", 0x2A2A2A2A), b"vpc ", 0x00050003, b"Wi2k",
         spec.get("original_size", size), size, spec.get("geometry", 0x03FF103F), disk_type, 0,
         bytes(range(0xA0, 0xB0)), 0,
     ]
